@@ -8,17 +8,18 @@
       (`readOrder_sound`);
     * UNDER THE ASSUMED parser behaviour (`ParserBehaviour`: defusedxml raises on an entity declaration; its
       SAX reader raises on an external subset) a package with an entity-declaring member that the entry point
-      reads makes the call fail, with `EntitiesForbidden` when that member is the only faulty one
-      (`refuses_partial`, `refuses_explicit_partial`, `refuses_external_subset_partial`).
+      reads makes the call fail, with `EntitiesForbidden` when that member is the only faulty one, and with
+      `ExternalReferenceForbidden` when its DOCTYPE only names an external subset — for EVERY entry point
+      (`refuses_partial`, `refuses_explicit_partial`, `refuses_external_subset_partial`, `C13_full_partial`).
 
   What is NOT proved (level: partial): the behaviour of defusedxml / expat itself — it is a hypothesis,
   validated on every run by the fault matrix of harness/c13.py — and "never reads a local file or URL", which
   is outside the model (a refused parse resolves nothing; the harness watches file and URL opens).
 
-  Full statement of the property in model terms (`C13_full`) and the one class of cells where it fails for the
-  observed parser behaviour (`finding_moin_external_subset`, known finding KF-C13-1/2: the MoinMoin converter
-  accepts a member whose DOCTYPE names an external subset — nothing is fetched or expanded, but nothing is
-  raised either).
+  Full statement of the property in model terms: `C13_full`, proved for every assumed parser behaviour
+  (`C13_full_partial`).  The external-subset refusal of the MoinMoin converter is CODE (`ODF2MoinMoin._parse` tests
+  `doctype.systemId / publicId` after the DOM parse, repaired in d51c2e9): it is the `doctypeGuard` flag of the
+  regenerated inventory (`moin_guarded`), not an assumption.
 -/
 import OdfModel.Entity
 namespace OdfModel.Props.C13
@@ -158,6 +159,37 @@ theorem readOrder_defused (ep : EP) (p : Pkg) (m : Member) (h : m ∈ readOrder 
 
 /-! ### refusal, under the assumed parser behaviour -/
 
+/-- **C13 (inventory, doctype guard)**: the parse site of the MoinMoin converter is followed by the explicit
+    `systemId / publicId` test (regenerated from the AST of `ODF2MoinMoin._parse` on every run) -/
+theorem moin_guarded (ep : EP) (hs : ep.shape = .moin) (pt : Part) (hpt : pt = .styles ∨ pt = .content) :
+    guarded ep ⟨[], pt⟩ = true := by
+  show guardedB ep pt true = true
+  cases ep <;> first | exact absurd hs (by decide) | skip
+  all_goals (rcases hpt with h | h <;> subst h <;> decide)
+
+theorem readMember_declares (B : ParserBehaviour) (ep : EP) (m : Member) (x : XmlMember) (api : Api)
+    (hk : kind ep m = some (.defused api)) (hd : x.declaresEntity = true) :
+    readMember B ep m x = .error .entitiesForbidden := by
+  simp only [readMember, hk, B.defused_refuses_entities api x hd]
+
+theorem readMember_clean (B : ParserBehaviour) (ep : EP) (m : Member) (k : Kind) (hk : kind ep m = some k) :
+    readMember B ep m XmlMember.clean = .ok ⟨false⟩ := by
+  have h := B.clean_ok k
+  simp only [readMember, hk, h]
+  simp [XmlMember.clean]
+
+/-- a member whose DOCTYPE only names an external subset: refused by the SAX reader (assumed), or by the code's
+    own doctype test after a DOM parse (modelled; the DOM parse itself may succeed or refuse, nothing else) -/
+theorem readMember_external (B : ParserBehaviour) (ep : EP) (m : Member) (x : XmlMember)
+    (hk : kind ep m = some (.defused .sax) ∨ ((∃ api, kind ep m = some (.defused api)) ∧ guarded ep m = true))
+    (hd : x.declaresEntity = false) (he : x.externalSubset = true) :
+    readMember B ep m x = .error .externalReferenceForbidden := by
+  rcases hk with hk | ⟨⟨api, hk⟩, hg⟩
+  · simp only [readMember, hk, B.sax_refuses_external_subset x hd he]
+  · rcases B.defused_no_other_failure api x hd with ⟨o, ho⟩ | herr
+    · simp [readMember, hk, ho, hg, he]
+    · simp only [readMember, hk, herr]
+
 theorem readList_refuses (B : ParserBehaviour) (ep : EP) (p : Pkg) (ms : List Member)
     (hk : ∀ m' ∈ ms, ∃ api, kind ep m' = some (.defused api))
     (m : Member) (x : XmlMember) (hm : m ∈ ms) (hx : p.lookup m.path = some x) (hd : x.declaresEntity = true) :
@@ -170,14 +202,13 @@ theorem readList_refuses (B : ParserBehaviour) (ep : EP) (p : Pkg) (ms : List Me
     by_cases hm0 : m = m0
     · subst hm0
       obtain ⟨api, hkm⟩ := hk m (by simp)
-      simp only [readList, hx, hkm, B.defused_refuses_entities api x hd]
+      simp only [readList, hx, readMember_declares B ep m x api hkm hd]
       exact ⟨_, rfl⟩
     · have hmr : m ∈ rest := by
         rcases List.mem_cons.mp hm with h | h
         · exact absurd h hm0
         · exact h
       obtain ⟨e, he⟩ := ihr hmr
-      obtain ⟨api0, hk0⟩ := hk m0 (by simp)
       simp only [readList]
       cases hl : p.lookup m0.path with
       | none =>
@@ -186,8 +217,8 @@ theorem readList_refuses (B : ParserBehaviour) (ep : EP) (p : Pkg) (ms : List Me
         · exact ⟨e, he⟩
         · exact ⟨_, rfl⟩
       | some x0 =>
-        simp only [hk0]
-        cases hp : B.parse (.defused api0) x0 with
+        simp only []
+        cases hp : readMember B ep m0 x0 with
         | error e0 => exact ⟨e0, rfl⟩
         | ok o => simp only [he]; exact ⟨e, rfl⟩
 
@@ -209,10 +240,10 @@ theorem returns_implies_clean_partial (B : ParserBehaviour) (ep : EP) (p : Pkg) 
     rw [he] at h; cases h
 
 /-- single-fault form used by the fault matrix: the walk up to the faulty member succeeds, so the error that
-    surfaces is the explicit refusal of that member. `bad` is what the assumed parser answers on it. -/
+    surfaces is the explicit refusal of that member -/
 theorem readList_single_fault (B : ParserBehaviour) (ep : EP) (p : Pkg) (ms : List Member)
     (m : Member) (x : XmlMember) (err : Err)
-    (hbad : ∀ m' ∈ ms, m'.path = m.path → ∃ k, kind ep m' = some k ∧ B.parse k x = .error err)
+    (hbad : ∀ m' ∈ ms, m'.path = m.path → readMember B ep m' x = .error err)
     (hothers : ∀ m' ∈ ms, m'.path ≠ m.path →
         (p.lookup m'.path = none ∧ skipsMissing ep m' = true) ∨
         (p.lookup m'.path = some XmlMember.clean ∧ ∃ k, kind ep m' = some k))
@@ -225,35 +256,45 @@ theorem readList_single_fault (B : ParserBehaviour) (ep : EP) (p : Pkg) (ms : Li
       fun hmr => ih (fun m' h' => hbad m' (List.mem_cons_of_mem _ h'))
                     (fun m' h' => hothers m' (List.mem_cons_of_mem _ h')) hmr
     by_cases hp0 : m0.path = m.path
-    · obtain ⟨k, hk, hpar⟩ := hbad m0 (by simp) hp0
-      simp only [readList, hp0, hx, hk, hpar]
+    · have hb := hbad m0 (by simp) hp0
+      simp only [readList, hp0, hx, hb]
     · have hmr : m ∈ rest := by
         rcases List.mem_cons.mp hm with h | h
         · exact absurd (by rw [h]) hp0
         · exact h
       rcases hothers m0 (by simp) hp0 with ⟨hl, hs⟩ | ⟨hl, k, hk⟩
       · simp only [readList, hl, hs, if_true]; exact ihr hmr
-      · simp only [readList, hl, hk, B.clean_ok k, ihr hmr]
+      · simp only [readList, hl, readMember_clean B ep m0 k hk, ihr hmr]
+
+/-- the side condition of the single-fault theorems: every OTHER member on the walk is clean, or absent where
+    the code tolerates absence -/
+def OthersClean (ep : EP) (p : Pkg) (m : Member) : Prop :=
+  ∀ m' ∈ readOrder ep p, m'.path ≠ m.path →
+    (p.lookup m'.path = none ∧ skipsMissing ep m' = true) ∨ p.lookup m'.path = some XmlMember.clean
+
+theorem others_kind (ep : EP) (p : Pkg) (m : Member) (h : OthersClean ep p m) :
+    ∀ m' ∈ readOrder ep p, m'.path ≠ m.path →
+        (p.lookup m'.path = none ∧ skipsMissing ep m' = true) ∨
+        (p.lookup m'.path = some XmlMember.clean ∧ ∃ k, kind ep m' = some k) := by
+  intro m' hm' hne
+  rcases h m' hm' hne with h | h
+  · exact Or.inl h
+  · obtain ⟨api, hk⟩ := readOrder_defused ep p m' hm'
+    exact Or.inr ⟨h, _, hk⟩
 
 /-- **C13 (explicit refusal; partial: parser behaviour assumed)**: the package's only faulty member declares
-    an entity and is read by the entry point (every other member on the walk is clean, or absent where the
-    code tolerates absence) ⟹ the call fails with `EntitiesForbidden`, for every entry point, every object
-    path, whatever the parser does otherwise. -/
+    an entity and is read by the entry point ⟹ the call fails with `EntitiesForbidden`, for every entry point,
+    every object path, whatever the parser does otherwise. -/
 theorem refuses_explicit_partial (B : ParserBehaviour) (ep : EP) (p : Pkg) (m : Member) (x : XmlMember)
     (hm : m ∈ readOrder ep p) (hx : p.lookup m.path = some x) (hd : x.declaresEntity = true)
-    (hothers : ∀ m' ∈ readOrder ep p, m'.path ≠ m.path →
-        (p.lookup m'.path = none ∧ skipsMissing ep m' = true) ∨ p.lookup m'.path = some XmlMember.clean) :
+    (hothers : OthersClean ep p m) :
     read B ep p = .error .entitiesForbidden := by
   unfold Entity.read
   apply readList_single_fault B ep p (readOrder ep p) m x .entitiesForbidden
   · intro m' hm' _
     obtain ⟨api, hk⟩ := readOrder_defused ep p m' hm'
-    exact ⟨_, hk, B.defused_refuses_entities api x hd⟩
-  · intro m' hm' hne
-    rcases hothers m' hm' hne with h | h
-    · exact Or.inl h
-    · obtain ⟨api, hk⟩ := readOrder_defused ep p m' hm'
-      exact Or.inr ⟨h, _, hk⟩
+    exact readMember_declares B ep m' x api hk hd
+  · exact others_kind ep p m hothers
   · exact hm
   · exact hx
 
@@ -276,53 +317,65 @@ theorem readOrder_sax (ep : EP) (hs : ep.shape ≠ .moin) (p : Pkg) (m : Member)
     subst h; exact (manifest_kind ep hs).2
   · exact absurd hsh hs
 
-/-- **C13 (external DTD subset; partial: parser behaviour assumed; MoinMoin converter excluded — KF-C13-1/2)**:
-    for `load`, the manifest reader, the user-field tool and the XHTML converter a member whose DOCTYPE names an
-    external subset is refused with `ExternalReferenceForbidden`. -/
-theorem refuses_external_subset_partial (B : ParserBehaviour) (ep : EP) (hs : ep.shape ≠ .moin) (p : Pkg)
+/-- every member on any walk is either handed to the SAX reader or to a defusedxml parser whose result the code
+    checks for an external subset -/
+theorem readOrder_sax_or_guarded (ep : EP) (p : Pkg) (m : Member) (h : m ∈ readOrder ep p) :
+    kind ep m = some (.defused .sax) ∨ ((∃ api, kind ep m = some (.defused api)) ∧ guarded ep m = true) := by
+  by_cases hs : ep.shape = .moin
+  · right
+    unfold readOrder at h
+    rw [hs] at h
+    simp only [List.mem_cons, List.not_mem_nil, or_false] at h
+    rcases h with h | h <;> subst h
+    · exact ⟨⟨_, (moin_kind ep hs .styles (Or.inl rfl)).2⟩, moin_guarded ep hs .styles (Or.inl rfl)⟩
+    · exact ⟨⟨_, (moin_kind ep hs .content (Or.inr rfl)).2⟩, moin_guarded ep hs .content (Or.inr rfl)⟩
+  · exact Or.inl (readOrder_sax ep hs p m h)
+
+/-- **C13 (external DTD subset; partial: parser behaviour assumed)**: for EVERY entry point — the MoinMoin
+    converter included, through the doctype test of `_parse` — a member whose DOCTYPE names an external subset is
+    refused with `ExternalReferenceForbidden`. -/
+theorem refuses_external_subset_partial (B : ParserBehaviour) (ep : EP) (p : Pkg)
     (m : Member) (x : XmlMember)
     (hm : m ∈ readOrder ep p) (hx : p.lookup m.path = some x)
     (hd : x.declaresEntity = false) (he : x.externalSubset = true)
-    (hothers : ∀ m' ∈ readOrder ep p, m'.path ≠ m.path →
-        (p.lookup m'.path = none ∧ skipsMissing ep m' = true) ∨ p.lookup m'.path = some XmlMember.clean) :
+    (hothers : OthersClean ep p m) :
     read B ep p = .error .externalReferenceForbidden := by
   unfold Entity.read
   apply readList_single_fault B ep p (readOrder ep p) m x .externalReferenceForbidden
   · intro m' hm' _
-    exact ⟨_, readOrder_sax ep hs p m' hm', B.sax_refuses_external_subset x hd he⟩
-  · intro m' hm' hne
-    rcases hothers m' hm' hne with h | h
-    · exact Or.inl h
-    · exact Or.inr ⟨h, _, readOrder_sax ep hs p m' hm'⟩
+    exact readMember_external B ep m' x (readOrder_sax_or_guarded ep p m' hm') hd he
+  · exact others_kind ep p m hothers
   · exact hm
   · exact hx
 
-/-! ### full statement, and where it fails -/
+/-! ### full statement -/
 
 /-- the property at full strength in model terms, for a given parser behaviour: ANY doctype-borne fault
     (entity declaration or external subset) in a member the entry point reads makes the call fail with one of
     the two explicit refusals -/
 def C13_full (B : ParserBehaviour) : Prop :=
   ∀ (ep : EP) (p : Pkg) (m : Member) (x : XmlMember), m ∈ readOrder ep p → p.lookup m.path = some x →
-    (x.declaresEntity = true ∨ x.externalSubset = true) →
-    (∀ m' ∈ readOrder ep p, m'.path ≠ m.path →
-        (p.lookup m'.path = none ∧ skipsMissing ep m' = true) ∨ p.lookup m'.path = some XmlMember.clean) →
+    (x.declaresEntity = true ∨ x.externalSubset = true) → OthersClean ep p m →
     read B ep p = .error .entitiesForbidden ∨ read B ep p = .error .externalReferenceForbidden
+
+/-- **C13 (full statement; partial only in that the behaviour of defusedxml / expat is the hypothesis `B`)** -/
+theorem C13_full_partial (B : ParserBehaviour) : C13_full B := by
+  intro ep p m x hm hx hf ho
+  cases hd : x.declaresEntity with
+  | true => exact Or.inl (refuses_explicit_partial B ep p m x hm hx hd ho)
+  | false =>
+    rcases hf with hf | hf
+    · rw [hd] at hf; cases hf
+    · exact Or.inr (refuses_external_subset_partial B ep p m x hm hx hd hf ho)
 
 /-- a package whose content.xml names an external DTD subset and declares nothing itself -/
 def extSubsetPkg : Pkg :=
   { files := [(Part.styles.file, XmlMember.clean), (Part.content.file, ⟨false, true⟩)], manifest := [] }
 
-/-- **known finding KF-C13-1/2 (model side)**: with the parser behaviour observed on the real defusedxml the
-    MoinMoin converter returns normally on `extSubsetPkg` (nothing expanded, nothing fetched, nothing raised) -/
-theorem finding_moin_external_subset : read observed .moinInit extSubsetPkg = .ok [⟨false⟩, ⟨false⟩] := by
+/-- the former finding KF-C13-1/2 (repaired in d51c2e9), on the model with the observed parser behaviour: the DOM
+    parse of content.xml succeeds and the doctype test of `_parse` refuses it -/
+theorem moin_external_subset_refused : read observed .moinInit extSubsetPkg = .error .externalReferenceForbidden := by
   rfl
-
-theorem C13_full_fails_for_observed : ¬ C13_full observed := by
-  intro h
-  have := h .moinInit extSubsetPkg ⟨[], .content⟩ ⟨false, true⟩ (by decide) (by decide) (Or.inr rfl) (by decide)
-  rw [finding_moin_external_subset] at this
-  rcases this with h | h <;> cases h
 
 /-! ### the hypotheses are satisfiable / the model is not vacuous -/
 
@@ -341,7 +394,7 @@ example (B : ParserBehaviour) :
   · decide
   · decide
   · rfl
-  · decide
+  · unfold OthersClean; decide
 
 /-- had a plain parser been used, the observed behaviour would return expanded content -/
 example : observed.parse .plain ⟨true, false⟩ = .ok ⟨true⟩ := rfl
